@@ -107,6 +107,9 @@ def run(tier, seed, replay=None):
         for c in corpus_cases("C15"):
             files = cr.files_of_case(c)
             run_case(run, drv, files, c["pl"], c["single"], c.get("via_cli", False), "corpus")
+        for files, pl, single in cr.corner_cases():
+            for via in (False, True):
+                run_case(run, drv, files, pl, single, via, "corner")
         for _ in range(120 if tier == "quick" else 1200):
             files, pl, single = cr.make_case(run.rng, tier, single_p=0.2)
             run_case(run, drv, files, pl, single, run.rng.random() < 0.3, "random")
